@@ -113,6 +113,7 @@ def scan_hash_iter():
         text = strip_comments(text)
         for m in re.finditer(r'\bfn\s+([A-Za-z0-9_]+)[^{;]*\{', text):
             start = m.end()
+            statics = static_hash_names()
             depth, j2 = 1, start
             while j2 < len(text) and depth:
                 c = text[j2]
@@ -127,7 +128,25 @@ def scan_hash_iter():
                 uses = sorted(set(re.findall(r'for\s+[^\n]*\bin\s+&?(?:mut\s+)?%s\b(?!\.(?:get|contains|entry|insert|len|is_empty))|(?<![\w.])%s\.%s\(' % (ident, ident, it_methods), body)))
                 if uses:
                     out.append({'file': rel, 'fn': m.group(1), 'snippet': '%s: %s' % (ident, ' ;; '.join(norm(u) for u in uses)[:300])})
+            # process-wide hash tables (`static ref NAME: HashMap<..>` in a lazy_static! block, `static NAME: Lazy<HashSet<..>>`): looking a
+            # key up is fine, walking them is seed-dependent wherever the walk happens
+            for ident in sorted(statics - idents):
+                uses = sorted(set(re.findall(r'for\s+[^\n]*\bin\s+&?\*?%s\b(?!\s*\.\s*(?:get|contains|contains_key|len|is_empty)\b)|(?<![\w.])%s\s*\.\s*%s\(' % (ident, ident, it_methods), body)))
+                if uses:
+                    out.append({'file': rel, 'fn': m.group(1), 'snippet': 'static %s: %s' % (ident, ' ;; '.join(norm(u) for u in uses)[:300])})
     return out
+
+
+_STATIC_HASH = None
+def static_hash_names():
+    global _STATIC_HASH
+    if _STATIC_HASH is None:
+        names = set()
+        for rel in rust_files():
+            text = strip_comments(open(os.path.join(REPO, rel), encoding='utf-8').read())
+            names |= set(re.findall(r'\bstatic\s+(?:ref\s+)?(?:mut\s+)?(\w+)\s*:\s*[^=;]*\bHash(?:Map|Set)\b', text))
+        _STATIC_HASH = names
+    return _STATIC_HASH
 
 
 def key(e):
